@@ -117,6 +117,171 @@ def _scenarios(quick, seed):
     return scns
 
 
+def _cpuinfo_text(lines, k):
+    """Concretise abstract cpuinfo lines; the separator layout varies with the case number."""
+    out = []
+    for j, ln in enumerate(lines):
+        v = (k + j) % 4
+        if ln["kind"] == "blank":
+            out.append(["", "   ", "\t", " \t "][v])
+        elif ln["kind"] == "nocolon":
+            out.append(ln["field"] + ["", " ", "\t", "  "][v])
+        else:
+            f, val = ln["field"], ln["value"]
+            out.append([f"{f}\t: {val}", f"{f}:{val}", f"{f}   :   {val}  ", f"{f}\t: {val} : trailing: 9"][v if val != "" or v != 3 else 0])
+    return ("\n".join(out) + "\n").encode()
+
+
+def cpuinfo_part(ck, quick):
+    """System information from generated /proc/cpuinfo contents (worker in a private mount namespace)."""
+    util.mc_design(ck, "MC_CpuInfo", "MC_CpuInfo" if quick else "MC_CpuInfo_thorough",
+                   "the cpuinfo scan transcribed (line loop, table loop, found flags) over every file of <= MaxFree lines and every file with <= MaxAround lines around a complete block; "
+                   "invariants LoopIsParse (loop = declarative reading), OnlyProcessorIsUpdated; liveness Terminates (quick)", workers=8, coverage=True, timeout=2400, extra=["-maxSetSize", "4000000"])
+    exp = core.run_tlc("MC_CpuInfo", "MC_CpuInfo_export", workers=4, timeout=900)
+    cases = exp["printed"].get("REPLAY", [])
+    if not cases:
+        raise core.ToolError("MC_CpuInfo exported no cases")
+    import random
+    rnd = random.Random(ck.seed)
+    good = [c for c in cases if c["want"]["ok"]]
+    bad = [c for c in cases if not c["want"]["ok"]]
+    n = 150 if quick else 1500
+    chosen = rnd.sample(good, min(n, len(good))) + rnd.sample(bad, min(n, len(bad)))
+    scns = []
+    per = 100
+    for b in range(0, len(chosen), per):
+        hist = []
+        for k, c in enumerate(chosen[b:b + per]):
+            hist += [{"op": "fake", "path": "/proc/cpuinfo", "content_hex": _cpuinfo_text(c["lines"], b + k).hex()}, {"op": "dump"}]
+        scns.append({"id": f"cpuinfo/{b // per}", "target": dumps.base_target(1), "writer": {"blamed": "main"}, "history": hist, "no_oracles": True, "timeout_ms": 120000,
+                     "cases": chosen[b:b + per]})
+    try:
+        runs = dumps.run_scenarios(ck, scns, "c18_cpuinfo", timeout=3000)
+    finally:
+        import glob
+        for f in glob.glob("/dev/shm/mdw_fake_*"):
+            try:
+                os.remove(f)
+            except OSError:
+                pass
+    evs, unavailable = [], 0
+    for r in runs:
+        if any(x.get("ev") == "fake_unavailable" for x in r.get("other", [])):
+            unavailable += 1
+            continue
+        for c, d in zip(r["scn"]["cases"], r["dumps"]):
+            si = d.get("streams", {}).get("sysinfo", {})
+            _, paths = dumps.flatten_soft_errors(d.get("soft_errors_raw", "")) if d.get("outcome") == "ok" else (False, [])
+            evs.append({"ev": "cpuinfo", "origin": f"{r['id']}#{d.get('dump_no')}", "lines": c["lines"], "outcome": d.get("outcome", "none"),
+                        "softErr": any("WriteCpuInformationFailed" in p for p in paths),
+                        "got": {"nproc": si.get("nproc", -1), "level": si.get("level", -1), "revision": si.get("revision", -1), "vendor": (si.get("vendor") or "").rstrip("\x00")}})
+    ck.cov["cpuinfo_substitution_unavailable"] = unavailable
+    if not evs:
+        # no privilege for a private mount namespace here: the model result stands, the binding to the code is not exercised
+        ck.assumptions.append("cpuinfo substitution (unshare + bind mount) was not permitted in this environment: CpuInfo is model-checked only")
+        return
+    out = os.path.join(ck.work, "c18_cpuinfo.ndjson")
+    core.export_lines(evs, out)
+
+    def describe(hist, tag):
+        e = hist[-1]
+        return ({"tag": tag}, f"{tag} ({e['origin']}): cpuinfo lines {json.dumps(e['lines'])[:500]} -> outcome {e['outcome']}, soft error {e['softErr']}, system information {e['got']}")
+    v = util.judge_batch(ck, "Trace_CpuInfo", out, "system-information stream and soft-error list of dumps taken while /proc/cpuinfo shows generated contents (every TLC-exported file class, four separator layouts)", "CpuInfo", describe, traces=len(evs))
+    if v["counts"]["ok"] == 0 or v["counts"]["missing"] == 0:
+        raise core.ToolError(f"vacuous cpuinfo part: {v['counts']}")
+    ck.cov["cpuinfo_cases"] = v["counts"]
+
+
+_AUX_KEY = {"phnum": 5, "phdr": 3, "gate": 33, "entry": 9, "null": 0, "other": 6}
+_AUX_VAL = {"phdr": {"a": {"auxv": 3}, "b": {"auxv": 3, "off": 0x1000}}, "phnum": {"a": {"auxv": 5}, "b": 1},
+            "gate": {"a": {"region": "ga"}, "b": {"region": "gb"}}, "entry": {"a": {"module": "libc.so.6", "off": 0x100}, "b": {"module": "ld-linux-x86-64.so.2", "off": 0x100}},
+            "null": {"a": 0, "b": 7}, "other": {"a": 4096, "b": 4097}}
+_AUX_DIRECT = {"phdr": {"chain": "phdr"}, "phnum": {"chain": "phnum"}, "gate": {"region": "gd"}, "entry": {"module": "libgcc_s.so.1", "off": 0x100}}
+
+
+def auxv_part(ck, quick):
+    """Completion of the auxiliary-vector values from a generated /proc/<pid>/auxv (worker in a private mount namespace)."""
+    from . import p_total
+    util.mc_design(ck, "MC_AuxvFile", "MC_AuxvFile", "ProcfsAuxvIter and try_filling_missing_info transcribed, over every caller-supplied subset of the four values and every file of <= 3 pairs "
+                   "(keys phnum/phdr/gate/entry/null/other, two values) with or without a truncated pair at its end; invariants C18_DirectFirstThenFirstPair, C11_TruncationIsSoft; liveness Terminates",
+                   workers=8, coverage=True, timeout=1500)
+    exp = core.run_tlc("MC_AuxvFile", "MC_AuxvFile_export", workers=4, timeout=900)
+    cases = exp["printed"].get("REPLAY", [])
+    if not cases:
+        raise core.ToolError("MC_AuxvFile exported no cases")
+    import random
+    rnd = random.Random(ck.seed)
+    # strata: caller supplied everything / file well-formed / file truncated; files with repeated keys first
+    def stratum(c):
+        if all(v != "unset" for v in c["direct"].values()):
+            return "complete"
+        return "truncated" if c["softErr"] else "wellformed"
+    by = {}
+    for c in cases:
+        by.setdefault(stratum(c), []).append(c)
+    n = {"complete": 10, "wellformed": 120, "truncated": 120} if quick else {"complete": 100, "wellformed": 1500, "truncated": 1500}
+    chosen = []
+    for k, lst in sorted(by.items()):
+        rep = [c for c in lst if len({p["key"] for p in c["pairs"]}) < len(c["pairs"])]      # a key occurs twice
+        chosen += rnd.sample(rep, min(n[k] // 2, len(rep))) + rnd.sample(lst, min(n[k] - n[k] // 2, len(lst)))
+    ids = {}
+    imgdir = os.path.join(ck.work, "gate")
+    for nm, seed in (("ga", 201), ("gb", 202), ("gd", 203)):
+        ids[nm] = p_total.mkelf(os.path.join(imgdir, nm + ".img"), "elf_nosoname", soname="", idseed=seed)["oracle_id"]
+    regions = [{"name": nm, "len": 0x3000, "image": os.path.join(imgdir, nm + ".img")} for nm in ("ga", "gb", "gd")]
+    scns, per = [], 80
+    for b in range(0, len(chosen), per):
+        hist = []
+        for c in chosen[b:b + per]:
+            da = {k: _AUX_DIRECT[k] for k, v in c["direct"].items() if v == "d"}
+            hist += [{"op": "set", "writer": {"direct_auxv": da}},
+                     {"op": "fake", "path": "/proc/{pid}/auxv", "pairs": [[_AUX_KEY[p["key"]], _AUX_VAL[p["key"]][p["val"]]] for p in c["pairs"]], "extra": 5 if c["ending"] == "partial" else 0},
+                     {"op": "dump"}]
+        scns.append({"id": f"auxv/{b // per}", "target": dumps.base_target(1, regions=regions, linker_chain={"names": ["", "/lib/libfirst.so", "/lib/libsecond.so.2"]}),
+                     "writer": {"blamed": "main"}, "history": hist, "no_oracles": True, "timeout_ms": 120000, "cases": chosen[b:b + per]})
+    try:
+        runs = dumps.run_scenarios(ck, scns, "c18_auxv", timeout=3000)
+    finally:
+        import glob
+        for f in glob.glob("/dev/shm/mdw_fake_*"):
+            try:
+                os.remove(f)
+            except OSError:
+                pass
+    evs, unavailable = [], 0
+    for r in runs:
+        if any(x.get("ev") == "fake_unavailable" for x in r.get("other", [])):
+            unavailable += 1
+            continue
+        for c, d in zip(r["scn"]["cases"], r["dumps"]):
+            obs = {"gate": "?", "entry": "?", "dso": "?", "softErr": False}
+            if d.get("outcome") == "ok":
+                mods = d["streams"]["modules"]["modules"]
+                gates = [m for m in mods if m.get("name") == "linux-gate.so"]
+                obs["gate"] = "unset" if not gates else next((k[1] for k in ("ga", "gb", "gd") if len(gates) == 1 and gates[0].get("cv_id") == ids[k]), "other")
+                first = mods[0].get("name", "") if mods else ""
+                obs["entry"] = "a" if "libc.so.6" in first else "b" if "ld-linux" in first else "d" if "libgcc_s" in first else "unset" if "mdw-target" in first else "other"
+                ds = d["streams"].get("dsodebug")
+                names = [m.get("name", "") for m in (ds or {}).get("link_maps", [])]
+                obs["dso"] = "none" if ds is None else "synthetic" if "/lib/libfirst.so" in names else "real" if any("libc.so" in x for x in names) else "other"
+                obs["softErr"] = "InvalidFormat" in d.get("soft_errors_raw", "")
+            evs.append({"ev": "auxv", "origin": f"{r['id']}#{d.get('dump_no')}", "direct": c["direct"], "pairs": c["pairs"], "ending": c["ending"], "outcome": d.get("outcome", "none"), "obs": obs})
+    ck.cov["auxv_substitution_unavailable"] = unavailable
+    if not evs:
+        ck.assumptions.append("auxv substitution (unshare + bind mount) was not permitted in this environment: AuxvFile is model-checked only")
+        return
+    out = os.path.join(ck.work, "c18_auxv.ndjson")
+    core.export_lines(evs, out)
+
+    def describe(hist, tag):
+        e = hist[-1]
+        return ({"tag": tag}, f"{tag} ({e['origin']}): caller supplied {e['direct']}, auxv file {[(p['key'], p['val']) for p in e['pairs']]} ending {e['ending']} -> outcome {e['outcome']}, observed {e['obs']}")
+    v = util.judge_batch(ck, "Trace_AuxvFile", out, "dumps taken while /proc/<pid>/auxv of the target shows a generated vector (first/second occurrence of each key distinguishable, AT_NULL early/late/absent, truncated pair); which value was used is read off the module list and the linker stream", "AuxvFile", describe, traces=len(evs))
+    if v["counts"]["wellformed"] == 0 or v["counts"]["truncated"] == 0:
+        raise core.ToolError(f"vacuous auxv part: {v['counts']}")
+    ck.cov["auxv_cases"] = v["counts"]
+
+
 def c18(ck):
     quick = ck.tier == "quick"
     mc = core.mc_or_die("ProcStreams", "MC_ProcStreams", workers=4, coverage=True, timeout=900)
@@ -144,9 +309,11 @@ def c18(ck):
     c = v["counts"]
     if min(c.values()) == 0:
         raise core.ToolError(f"vacuous: {c}")
-    ck.cov["distinct_nontrivial"] = v["checked"]
+    cpuinfo_part(ck, quick)
+    auxv_part(ck, quick)
+    ck.cov["distinct_nontrivial"] = v["checked"] + sum(ck.cov.get("cpuinfo_cases", {}).values()) + sum(ck.cov.get("auxv_cases", {}).values())
     ck.cov["by_kind"] = c
-    ck.cov["rule"] = "one case = one stream of one dump of a generated target; seeded"
+    ck.cov["rule"] = "one case = one stream of one dump of a generated target (seeded), or one dump under one generated /proc/cpuinfo (TLC-exported, sampled)"
     ck.cov["decided_by"] = {"memory-info table, handle bijection, system-info fields, linker list, auxv precedence": "spec",
                             "raw copies (cmdline, environ, auxv, limits, maps): byte comparison": "comparator (translation-validation-like: TLC only judges the comparator's result)"}
     ck.sample({"handles": next(e for e in evs if e["ev"] == "handles")})
